@@ -165,7 +165,8 @@ Definition op_copy_from_toodee (k : rkind) (v : view) (b : buf)
   | _ => rows <- all_rows v ;; zip_copy rows srows b
   end.
 
-(* copy_within (copy.rs 108-144); [oc] = overflow checks *)
+(* copy_within (copy.rs 108-144); [oc] = overflow checks (the two assertions on the
+   destination use checked_add since the D14 repair: they reject in either mode) *)
 Definition copy_row_to_row (b : buf) (s d : sl) (sx0 sx1 dx cols : nat) : res buf :=
   dw <- index_range d dx (dx + cols) ;;
   sw <- index_range s sx0 sx1 ;;
@@ -202,9 +203,9 @@ Definition op_copy_within (oc : bool) (v : view) (b : buf) (x0 y0 x1 y1 dx dy : 
   _ <- assert (y1 <=? N.of_nat (vrows v))%N ;;
   let cols := (x1 - x0)%N in
   let rows := (y1 - y0)%N in
-  e0 <- uadd oc dx cols ;;
+  e0 <- cadd dx cols ;;
   _ <- assert (e0 <=? N.of_nat (vcols v))%N ;;
-  e1 <- uadd oc dy rows ;;
+  e1 <- cadd dy rows ;;
   _ <- assert (e1 <=? N.of_nat (vrows v))%N ;;
   let rs := seq (N.to_nat y0) (N.to_nat rows) in
   if (y0 <? dy)%N then
@@ -225,9 +226,9 @@ Definition op_copy_within (oc : bool) (v : view) (b : buf) (x0 y0 x1 y1 dx dy : 
 
 (** ** copy_within with destination corners of any magnitude (values near usize::MAX).
     The same statements once more with every caller-supplied quantity kept in binary and
-    compared before it is converted; without overflow checks the two sums, and the row
-    offset added inside the loop, wrap.  A panic inside the loop leaves the rows copied so
-    far in place: the result is [Ok (panicked, buffer)]. *)
+    compared before it is converted.  A panic inside the loop would leave the rows copied so
+    far in place: the result is [Ok (panicked, buffer)] (since the D14 repair the two
+    checked sums reject every destination that does not fit before the first row). *)
 Definition index_range_N (s : sl) (a b : N) : res sl :=
   if ((a <=? b) && (b <=? N.of_nat (len s)))%N then index_range s (N.to_nat a) (N.to_nat b) else Panic.
 
@@ -276,9 +277,9 @@ Definition op_copy_within_w (oc : bool) (v : view) (b : buf) (x0 y0 x1 y1 dx dy 
          _ <- assert (y1 <=? N.of_nat (vrows v))%N ;;
          let cols := (x1 - x0)%N in
          let rows := (y1 - y0)%N in
-         e0 <- uadd oc dx cols ;;
+         e0 <- cadd dx cols ;;
          _ <- assert (e0 <=? N.of_nat (vcols v))%N ;;
-         e1 <- uadd oc dy rows ;;
+         e1 <- cadd dy rows ;;
          _ <- assert (e1 <=? N.of_nat (vrows v))%N ;;
          let rs := seq (N.to_nat y0) (N.to_nat rows) in
          if (y0 <? dy)%N then
